@@ -74,7 +74,8 @@ def command(r):
         return r.choice(["h", "l", "3l", "2h", "0", "^", "$", "2$", "gg", "G", "3|", "|", "A<esc>", "I<esc>", "x", "X", "d0", "d$", "dl", "dh", "d^", "vl", "v$", "vh",
                          "w", "b", "e", "W", "B", "E", "2w", "3b", "2e", "2W", "3E", "2B", "dw", "db", "de", "dW", "cwX<esc>", "c2wY<esc>", "cW!<esc>", "yw", "ye", "g~w", "gUe",
                          "ge", "gE", "2ge", "dge", "vge", "fa", "Fa", "ta", "To", "2fa", ";", ",", "dfa", "dTo", "diw", "daw", "diW", "yaW", "ciwX<esc>", "%", "{", "}",
-                         "(", ")", "2)", "3(", "d)", "d(", "y)", "c)X<esc>", "dip", "dap", "yip", "2dap", "cipX<esc>", "d}", "d{", "2}", "y{"])
+                         "(", ")", "2)", "3(", "d)", "d(", "y)", "c)X<esc>", "dip", "dap", "yip", "2dap", "cipX<esc>", "d}", "d{", "2}", "y{",
+                         "J", "J", "2J", "3J", "4J", "oX<esc>", "OX<esc>", "3oé<esc>", "2Oab<esc>", "2G", "3G", "d2G", "y3G", "2j", "3k", "v$d", "v$y"])
     return r.choice(MOTIONS)
 
 
@@ -93,6 +94,8 @@ def parse_verb(s):
     m = re.fullmatch(r"Put\((After|Before)\)", s)
     if m:
         return ["Put" + m.group(1)]
+    if s == "JoinLines":
+        return ["JoinLines", 1]          # the count is filled in from the command by the caller
     m = re.fullmatch(r"InsertModeLineBreak\((After|Before)\)", s)
     if m:
         return ["OpenLine" + m.group(1)]
@@ -212,6 +215,14 @@ def frame_oracle(verb, lb, done, pre_gs):
             if post == pre[:s] + c[1] + pre[s:]:
                 return None
         return "text after put is not `before` with the register text inserted at one place"
+    if kind == "JoinLines":
+        # J only ever touches line breaks and blanks, and never makes the text longer
+        strip = lambda t: "".join(ch for ch in t if ch not in " \t\n")
+        if strip(pre) != strip(post):
+            return "J changed something other than blanks and line breaks"
+        if len(post) > len(pre):
+            return "J made the text longer"
+        return None
     if kind in ("OpenLineAfter", "OpenLineBefore"):
         # o / O add exactly one line terminator, nothing else
         for s in range(len(pre) + 1):
@@ -299,6 +310,9 @@ def run(tier, seed, replay=None):
         nmod = 0
         for k, (lb, done) in enumerate(pairs):
             verb = parse_verb(lb["verb"])
+            if verb is not None and verb[0] == "JoinLines":
+                jm = re.search(r"verb=Some\(VerbCmd\((\d+), JoinLines\)\)", lb["cmd"])
+                verb = ["JoinLines", int(jm.group(1)) if jm else 1]
             if verb is None:
                 if lb["verb"]:
                     R.count("verb_other:" + re.sub(r"\(.*", "", lb["verb"]))
